@@ -1,15 +1,15 @@
-\* thorough: both programs, both directions, two start values, 2-3 members per call-back kind, all five
-\* two-value members; every order of applying the equations
+\* thorough: both programs, both directions, two start values, 720 configurations (analyses); every order of
+\* applying the equations
 CONSTANTS
   ProgIdx = {1, 2}
   Dirs = {"fwd", "bwd"}
   StartVals = {1, 3}
-  FamDef = {1, 2, 6}
+  FamDef = {1, 2}
   FamJump = {1, 4, 5}
   FamSpec = {1, 4}
   FamCall = {1, 7}
-  FamStub = {2, 3}
-  FamSplit = {1, 4, 5}
+  FamStub = {2}
+  FamSplit = {1, 5}
   FamTwo = {1, 2, 3, 4, 5}
 SPECIFICATION MCSpec
 INVARIANT InClass LfpSolves BelowLFP FixpointIsLFP
